@@ -96,6 +96,10 @@ def sweep(ck, dialect, cmd, n, glsl_ub_excluded=False, label=""):
         if r.startswith("agree"):
             continue
         cls = err_class(r)
+        if cls == "values" and re.match(r"probe:f2[iu]nan_", knob):
+            # WGSL leaves the integer converted from a NaN open: only definedness is required
+            skipped["NaN conversion result differs (indeterminate in WGSL)"] = skipped.get("NaN conversion result differs (indeterminate in WGSL)", 0) + 1
+            continue
         if glsl_ub_excluded and cls.startswith("UB:"):
             # C05 is stated only for executions on which GLSL defines the result
             key = "excluded by the property (GLSL-undefined): " + cls
@@ -137,6 +141,77 @@ def sweep(ck, dialect, cmd, n, glsl_ub_excluded=False, label=""):
     return found
 
 
+def access_sweep(ck, dialect, hostile):
+    """Access-shape probes: the emitted text is run on in-range indices (C03-C05) or hostile indices under the
+    protective option sets (C15) and compared with the output WGSL prescribes (oracle in the harness)."""
+    mode = "hostile" if hostile else "inrange"
+    sub = "caccess-%s-%s" % (dialect, mode)
+    how = "the emitted %s text, run by the Lean interpreter on this index, %s" % (
+        dialect.upper(), "performs an out-of-object access / undefined operation or does not give the value the selected "
+        "bounds-check policy prescribes" if hostile else "does not access the element WGSL prescribes")
+    expected_sweep(ck, dialect, "caccess", 0, [dialect] + (["hostile"] if hostile else []), sub,
+                   dialect + ("-hostile-index" if hostile else "-access-changes-meaning"), how,
+                   empty_note="%s offers no index bounds-check policy: no hostile access case generated" % dialect if hostile else None)
+
+
+def expected_sweep(ck, dialect, cmd, n, args, sub, kind, how, empty_note=None):
+    """Run a harness command that writes cases.txt + expected.txt (oracle computed from the WGSL rules in the harness),
+    execute the cases with the Lean interpreters and compare the read-write buffer."""
+    out = ck.harness(cmd, n, extra_args=args, timeout=3000, subdir=sub)
+    if out is None:
+        return
+    cases = os.path.join(out, "cases.txt")
+    if not os.path.exists(cases):
+        if empty_note:
+            ck.notes.append(empty_note)
+            return
+        ck.tie_broken("no-cases", "the harness produced no case for " + sub, "")
+        return
+    if not ck.run_driver(["csem"], cases, os.path.join(out, "model.txt")):
+        return
+    res = common.read_lines(os.path.join(out, "model.txt"))
+    exp = common.read_lines(os.path.join(out, "expected.txt"))
+    tags = common.read_lines(os.path.join(out, "tags.txt"))
+    srcs = common.read_lines(os.path.join(out, "src.txt"))
+    texts = common.read_lines(os.path.join(out, "text.txt")) if os.path.exists(os.path.join(out, "text.txt")) else []
+    reported = set()
+    stat = {"agree": 0}
+    for i, (r, e, t) in enumerate(zip(res, exp, tags)):
+        ck.case(sub + t + str(i), nontrivial=True)
+        m = re.search(r"\(1, (\[[^\]]*\])\)", r)
+        if r.startswith("ok") and m and m.group(1) == e:
+            stat["agree"] += 1
+            continue
+        cls = "values" if r.startswith("ok") else re.sub(r"[0-9]+", "N", r[6:]).rstrip("]") if r.startswith("error[") else r[:60]
+        shape = t.split(" ")[0]
+        stat[cls[:60]] = stat.get(cls[:60], 0) + 1
+        fid = find_known(ck, dialect, "", t, cls)
+        key = (":".join(shape.split(":")[1:4]), cls)
+        if fid is None and key in reported:
+            continue
+        reported.add(key)
+        ck.violation({"kind": kind, "finding": fid, "case": t,
+                      "got": r[:1500], "expected_outp": e, "wgsl": unq(srcs[i][1:-1]),
+                      "emitted": unq(texts[i][1:-1])[:6000] if i < len(texts) else None, "how": how},
+                     found_input=True)
+    ck.extra.setdefault("access_probes", {})[sub] = stat
+    st = ck.stats.get(sub, {})
+    if st.get("prefix-array-declarator"):
+        fid = find_known(ck, dialect, "", "prefix-array-declarator", "prefix-array-declarator")
+        f = os.path.join(out, "prefix-array.txt")
+        ck.violation({"kind": "ill-formed-text", "finding": fid, "dialect": dialect, "count": st["prefix-array-declarator"],
+                      "emitted": unq(common.read_lines(f)[0][1:-1])[:3000] if os.path.exists(f) else None,
+                      "how": "a module-scope array variable is declared `T[N] name`, which no C-family grammar accepts"}, found_input=True)
+    for bad in ("backend-error", "cparse-error"):
+        if st.get(bad):
+            f = os.path.join(out, bad.replace("-error", "-errors") + ".txt")
+            lines = common.read_lines(f) if os.path.exists(f) else []
+            mm = re.match(r'"((?:[^"\\]|\\.)*)" "((?:[^"\\]|\\.)*)"', lines[0] if lines else "")
+            msg = unq(mm.group(1)) if mm else ""
+            ck.violation({"kind": bad, "finding": find_known(ck, dialect, "", "", bad + ": " + msg), "dialect": dialect, "count": st[bad],
+                          "message": msg, "input": unq(mm.group(2))[:4000] if mm else None}, found_input=True)
+
+
 def run(ck, dialect, prop_module, glsl_ub_excluded=False):
     ck.trusted = ["Lean kernel", "axioms: propext, Classical.choice, Quot.sound",
                   "L1 semantics: Sem.Ops / Sem.Wgsl (WGSL), Sem.COps / Sem.CLike (target language)",
@@ -148,6 +223,7 @@ def run(ck, dialect, prop_module, glsl_ub_excluded=False):
         return
     n = N.get(ck.tier, N["quick"])
     sweep(ck, dialect, "cprobesem", 0, glsl_ub_excluded)
+    access_sweep(ck, dialect, hostile=False)
     sweep(ck, dialect, "csem", n, glsl_ub_excluded)
     if ck.tier == "thorough":
         ck.leanchecker(["Naga.Tie.CEmit", prop_module])
